@@ -291,89 +291,140 @@ class Inliner:
         self.log.append('%s <- %s (%s, %d blocks)' % (caller['path'], callee['path'], kind, len(callee['blocks'])))
         return range(boff, boff + len(new_blocks))
 
+    def ret_values(self, caller, boff, n, ret_slot):
+        """Forward dataflow over the spliced region: the set of values the helper's return slot can hold at the end of
+        each block; a value is ('int', c) for an integer/bool constant, ('var', adt, vi) for an enum variant, '?' otherwise."""
+        region = list(range(boff, boff + n))
+        def succs(bi):
+            t_ = caller['blocks'][bi]['term']
+            out = []
+            for k in ('target', 'otherwise', 'resume'):
+                if isinstance(t_.get(k), int) and not isinstance(t_.get(k), bool):
+                    out.append(t_[k])
+            out += [b2 for _, b2 in t_.get('targets', [])]
+            return [x for x in out if boff <= x < boff + n]
+        def transfer(bi, inv):
+            val = inv
+            for st in caller['blocks'][bi]['stmts']:
+                if st['k'] == 'assign' and st['lhs']['l'] == ret_slot:
+                    if st['lhs'].get('p'):
+                        val = {'?'}
+                        continue
+                    rv = st['rv']
+                    if rv['k'] == 'use' and rv['op'].get('c') is not None and isinstance(rv['op']['c'].get('v'), int):
+                        val = {('int', rv['op']['c']['v'])}
+                    elif rv['k'] == 'agg' and rv.get('agg') == 'adt' and isinstance(rv.get('vi'), int):
+                        val = {('var', rv.get('adt'), rv['vi'])}
+                    else:
+                        val = {'?'}
+            t_ = caller['blocks'][bi]['term']
+            if t_['k'] == 'call' and t_.get('dest') and t_['dest']['l'] == ret_slot:
+                val = {'?'}
+            return val
+        inn = {bi: set() for bi in region}
+        out = {bi: set() for bi in region}
+        inn[boff] = {'unset'}
+        work = [boff]
+        it = 0
+        while work and it < 20000:
+            it += 1
+            bi = work.pop()
+            o = transfer(bi, inn[bi])
+            if o != out[bi]:
+                out[bi] = set(o)
+                for sx in succs(bi):
+                    if not out[bi] <= inn[sx]:
+                        inn[sx] |= out[bi]
+                        work.append(sx)
+        return out
+
+    def _return_sites(self, caller, boff, n, ret_slot, dest, cont):
+        """(return block, predecessor or None, value set): per way of reaching a return of the spliced helper."""
+        out = self.ret_values(caller, boff, n, ret_slot)
+        region = range(boff, boff + n)
+        def single_succ(bi):
+            t_ = caller['blocks'][bi]['term']
+            return t_['target'] if t_['k'] in ('goto', 'drop') and isinstance(t_.get('target'), int) else None
+        sites = []
+        for ri in region:
+            rb = caller['blocks'][ri]
+            if not (rb['term']['k'] == 'goto' and rb['term']['target'] == cont and rb['stmts'] and rb['stmts'][-1]['k'] == 'assign'
+                    and rb['stmts'][-1]['lhs']['l'] == dest and not rb['term'].get('threaded')):
+                continue
+            own = any(st['k'] == 'assign' and st['lhs']['l'] == ret_slot for st in rb['stmts'][:-1])
+            preds = [pi for pi in region if single_succ(pi) == ri and pi != ri]
+            allpreds = [pi for pi in region if ri in ([b2 for _, b2 in caller['blocks'][pi]['term'].get('targets', [])] + [caller['blocks'][pi]['term'].get(k) for k in ('target', 'otherwise', 'resume')]) and pi != ri]
+            if own or len(out[ri]) == 1 and (ri == boff or not preds):
+                sites.append((ri, None, out[ri]))
+            elif len(preds) == len(allpreds):
+                for pi in preds:
+                    sites.append((ri, pi, out[pi]))
+        return sites
+
     def thread_returns(self, caller, boff, n, ret_slot, dest, cont):
-        """Jump threading for predicate helpers: when a spliced helper returns a constant (`true` / `false`, a fieldless or
-        known enum variant) on a branch and the caller immediately branches on the returned value, the branch of the
-        helper continues directly at the caller's corresponding target. Without this the caller's decision would hang on
-        a materialised bool and no edge of the original condition would dominate the guarded code any more."""
+        """Jump threading for predicate helpers: when a spliced helper returns a constant (`true` / `false`, a known enum
+        variant) on a branch and the caller immediately branches on the returned value (or applies `?` to it), that branch
+        of the helper continues directly at the caller's corresponding target. Without this the caller's decision would
+        hang on a materialised value and no edge of the original condition would dominate the guarded code any more."""
         cb = caller['blocks'][cont]
         tt = cb['term']
-        if tt['k'] != 'switch':
-            return
-        dl = _op_local(tt['discr'])
-        if dl is None:
-            return
-        via_discr = False
-        if dl != dest:
-            # `d = discriminant(dest); switch(d)`
-            ok = False
-            for st in cb['stmts']:
-                if st['k'] == 'assign' and st['lhs']['l'] == dl and not st['lhs'].get('p') and st['rv']['k'] == 'discr' and st['rv']['place']['l'] == dest and not st['rv']['place'].get('p'):
-                    ok = True
-            if not ok:
-                return
-            via_discr = True
         if any(st['k'] == 'assign' and st['lhs']['l'] == dest for st in cb['stmts']):
             return
-        targets = dict((v, b) for v, b in tt['targets'])
-        for ri in range(boff, boff + n):
+        mode = None
+        if tt['k'] == 'call' and re.search(r'as std::ops::Try>::branch$', (_callee(tt)[0] or '')) and len(tt['args']) == 1 and _op_local(tt['args'][0]) == dest and isinstance(tt.get('target'), int):
+            sw = caller['blocks'][tt['target']]
+            st_ = sw['term']
+            bl = tt['dest']['l']
+            dl = _op_local(st_['discr']) if st_['k'] == 'switch' else None
+            if dl is None or not any(x['k'] == 'assign' and x['lhs']['l'] == dl and x['rv']['k'] == 'discr' and x['rv']['place']['l'] == bl and not x['rv']['place'].get('p') for x in sw['stmts']):
+                return
+            mode = 'try'
+            targets = dict((v, b) for v, b in st_['targets'])
+            otherwise = st_['otherwise']
+        elif tt['k'] == 'switch':
+            dl = _op_local(tt['discr'])
+            if dl is None:
+                return
+            if dl == dest:
+                mode = 'int'
+            elif any(st['k'] == 'assign' and st['lhs']['l'] == dl and not st['lhs'].get('p') and st['rv']['k'] == 'discr' and st['rv']['place']['l'] == dest and not st['rv']['place'].get('p') for st in cb['stmts']):
+                mode = 'discr'
+            else:
+                return
+            targets = dict((v, b) for v, b in tt['targets'])
+            otherwise = tt['otherwise']
+        else:
+            return
+        for ri, last, vals in self._return_sites(caller, boff, n, ret_slot, dest, cont):
+            if len(vals) != 1:
+                continue
+            v = next(iter(vals))
+            if not isinstance(v, tuple):
+                continue
+            if mode == 'int' and v[0] == 'int':
+                val = v[1]
+            elif mode == 'discr' and v[0] == 'var':
+                val = v[2]
+            elif mode == 'try' and v[0] == 'var' and v[1] in ('std::result::Result', 'std::option::Option'):
+                val = v[2] if v[1] == 'std::result::Result' else (0 if v[2] == 1 else 1)  # ControlFlow: Continue = 0, Break = 1
+            else:
+                continue
+            tgt = targets.get(val, otherwise)
             rb = caller['blocks'][ri]
-            if not (rb['term']['k'] == 'goto' and rb['term']['target'] == cont and rb['stmts'] and rb['stmts'][-1]['k'] == 'assign' and rb['stmts'][-1]['lhs']['l'] == dest):
-                continue
-            # walk back from each predecessor of the return block along blocks that belong to one path only (one predecessor,
-            # one successor) to the assignment of the return slot; if it is a constant the path continues at the matching target
-            region = range(boff, boff + n)
-            def succs_of(b_):
-                t_ = b_['term']
-                if t_['k'] in ('goto', 'drop') and isinstance(t_.get('target'), int):
-                    return [t_['target']]
-                return None
-            preds = {}
-            for pi in region:
-                ss = succs_of(caller['blocks'][pi])
-                tk = caller['blocks'][pi]['term']
-                allsucc = ss if ss is not None else ([b2 for _, b2 in tk.get('targets', [])] + [x for x in (tk.get('otherwise'), tk.get('target'), tk.get('resume')) if isinstance(x, int)])
-                for x in allsucc:
-                    preds.setdefault(x, []).append(pi)
-            def const_of(stmts):
-                val = None
-                found = False
-                for st in stmts:
-                    if st['k'] == 'assign' and st['lhs']['l'] == ret_slot and not st['lhs'].get('p'):
-                        rv = st['rv']
-                        found = True
-                        val = None
-                        if rv['k'] == 'use' and rv['op'].get('c') is not None and isinstance(rv['op']['c'].get('v'), int) and not via_discr:
-                            val = rv['op']['c']['v']
-                        elif rv['k'] == 'agg' and rv.get('agg') == 'adt' and via_discr and isinstance(rv.get('vi'), int):
-                            val = rv['vi']
-                return found, val
-            # the return block itself may hold the constant
-            found, val = const_of(rb['stmts'][:-1])
-            if found:
-                if val is not None:
-                    rb['stmts'] = rb['stmts'] + copy.deepcopy(cb['stmts'])
-                    rb['term'] = {'k': 'goto', 'target': targets.get(val, tt['otherwise']), 'threaded': True}
-                continue
-            for last in list(preds.get(ri, [])):
-                if succs_of(caller['blocks'][last]) != [ri]:
-                    continue
-                cur = last
-                val = None
-                for _ in range(12):
-                    found, val = const_of(caller['blocks'][cur]['stmts'])
-                    if found:
-                        break
-                    ps_ = preds.get(cur, [])
-                    if len(ps_) != 1 or succs_of(caller['blocks'][ps_[0]]) != [cur]:
-                        val = None
-                        break
-                    cur = ps_[0]
-                if val is None:
-                    continue
-                tgt = targets.get(val, tt['otherwise'])
-                nb = {'cleanup': False, 'stmts': copy.deepcopy(rb['stmts']) + copy.deepcopy(cb['stmts']), 'term': {'k': 'goto', 'target': tgt, 'threaded': True}, 'inl': rb.get('inl')}
-                caller['blocks'].append(nb)
+            if mode == 'try':
+                n2 = {'cleanup': False, 'stmts': copy.deepcopy(sw['stmts']), 'term': {'k': 'goto', 'target': tgt, 'threaded': True}, 'inl': rb.get('inl')}
+                caller['blocks'].append(n2)
+                term = copy.deepcopy(tt)
+                term['target'] = len(caller['blocks']) - 1
+                term['threaded'] = True
+            else:
+                term = {'k': 'goto', 'target': tgt, 'threaded': True}
+            if last is None:
+                rb['stmts'] = rb['stmts'] + copy.deepcopy(cb['stmts'])
+                rb['term'] = term
+            else:
+                n1 = {'cleanup': False, 'stmts': copy.deepcopy(rb['stmts']) + copy.deepcopy(cb['stmts']), 'term': term, 'inl': rb.get('inl')}
+                caller['blocks'].append(n1)
                 lb = caller['blocks'][last]
                 lb['term'] = dict(lb['term'], target=len(caller['blocks']) - 1)
 
